@@ -748,6 +748,36 @@ Section History.
   Qed.
 End History.
 
+Section Results.
+  Variable re_ok : bytes -> bool.
+  Variable re_match : bytes -> bytes -> bool.
+
+  Definition op_result_rt (rt : router) (o : op) : opres :=
+    match o with
+    | OAdd f => snd (add_front re_ok re_match rt f)
+    | ODel f => snd (remove_front re_ok re_match rt f)
+    end.
+  Definition op_result_cfg (S : astate) (o : op) : opres :=
+    match o with
+    | OAdd f => snd (a_add re_ok S f)
+    | ODel f => snd (a_del re_ok S f)
+    end.
+
+  (** the answer to an add / remove (Ok, AddRoute, RemoveRoute, ...) is a
+      function of the configuration only *)
+  Lemma op_results_from_config hist o :
+    plain_history (hist ++ [o]) ->
+    op_result_rt (run re_ok re_match hist) o = op_result_cfg (config re_ok hist) o.
+  Proof.
+    intros P. destruct (plain_history_app _ _ P) as [P1 P2].
+    pose proof (run_refines re_ok re_match hist P1) as R.
+    inversion P2 as [|? ? Po _]; subst.
+    destruct o as [f|f]; cbn [op_result_rt op_result_cfg op_front] in *.
+    - apply add_refines; assumption.
+    - apply del_refines; assumption.
+  Qed.
+End Results.
+
 (** regex-segment hostnames (outside [plain_history]): the witness of the
     former order dependence; since the fixes in pattern_trie.rs both orders
     route alike *)
